@@ -9,6 +9,7 @@ import (
 	"path/filepath"
 	"sort"
 	"strings"
+	"sync"
 	"syscall"
 	"testing"
 	"time"
@@ -446,6 +447,11 @@ func c16Gen() *rapid.Generator[c16Case] {
 				c.Usage = "flag of another subcommand"
 			}
 		}
+		// --watch: without a file to watch (stdin) it has no effect; with a file that cannot be opened the command fails
+		// (a watched file that exists is followed until the process is killed: part `watch`)
+		if (c.Sub == "output" || c.Sub == "o" || c.Sub == "out") && (c.Input == "stdin" || c.Input == "dash" || c.Input == "missing") && rapid.IntRange(0, 7).Draw(t, "watch") == 0 {
+			c.Args = append(c.Args, rapid.SampledFrom([]string{"--watch", "-w", "--watch=true"}).Draw(t, "wflag"))
+		}
 		// hostile names may only reach a real mkdir inside the library's jail via the chroot worker; keep them to dry runs
 		if hostile && (c.Sub == "mkdir" || c.Sub == "m") && !c.DryRun {
 			var kept []string
@@ -512,4 +518,157 @@ func TestC16Template(t *testing.T) {
 	if tpl.exit != 0 || out.exit != 0 || string(out.stdout) != want {
 		violation(t, "C16", "c16", c16Case{Sub: "output", Stdout: "pipe", Input: "stdin", Doc: tpl.stdout}, fmt.Sprintf("gtree template | gtree output: exit %d/%d\ngot:\n%s\nwant:\n%s", tpl.exit, out.exit, out.stdout, want))
 	}
+}
+
+// ---- output --watch --------------------------------------------------------------------------------------------------
+
+type c16Watch struct {
+	Doc1   string `json:"doc1"`
+	Doc2   string `json:"doc2"`
+	Format string `json:"format,omitempty"`
+}
+
+func init() { registerReplay("c16w", c16WatchCheck) }
+
+// c16WatchCheck: `gtree output --watch --file F` renders F, and renders it again after F has changed, until it is killed.
+func c16WatchCheck(c c16Watch) string {
+	msg := c16WatchOnce(c)
+	if msg == "no-first-rendering" {
+		// 20 s without the first rendering (the command polls every 500 ms): once more, to rule out a stalled machine
+		if msg = c16WatchOnce(c); msg == "no-first-rendering" {
+			return fmt.Sprintf("gtree output --watch --file F with F = %q wrote nothing within 20 s (twice); the library renders F without error", truncate(c.Doc1, 200))
+		}
+	}
+	return msg
+}
+
+func c16WatchOnce(c c16Watch) string {
+	bin := os.Getenv("VERIF_CLI_BIN")
+	if bin == "" {
+		return ""
+	}
+	want1, err1, _ := outputMD(c.Doc1, ops.Opts{Encode: c.Format})
+	want2, err2, _ := outputMD(c.Doc2, ops.Opts{Encode: c.Format})
+	if err1 != nil || err2 != nil || want1 == "" || want2 == "" {
+		return ""
+	}
+	cliSeq++
+	dir := filepath.Join(scratch, fmt.Sprintf("cliw.%d.%d", os.Getpid(), cliSeq))
+	os.MkdirAll(dir, 0o755)
+	defer os.RemoveAll(dir)
+	doc := filepath.Join(dir, "doc.md")
+	os.WriteFile(doc, []byte(c.Doc1), 0o644)
+	args := []string{"output", "--watch", "--file", doc}
+	if c.Format != "" {
+		args = append(args, "--format", c.Format)
+	}
+	cmd := exec.Command(bin, args...)
+	cmd.Dir = dir
+	cmd.Env = append(os.Environ(), "NO_COLOR=1")
+	var se bytes.Buffer
+	cmd.Stderr = &se
+	so, err := cmd.StdoutPipe()
+	if err != nil || cmd.Start() != nil {
+		ops.InfraCount.Add(1)
+		return ""
+	}
+	var mu sync.Mutex
+	var got []byte
+	go func() {
+		buf := make([]byte, 4096)
+		for {
+			n, err := so.Read(buf)
+			mu.Lock()
+			got = append(got, buf[:n]...)
+			mu.Unlock()
+			if err != nil {
+				return
+			}
+		}
+	}()
+	exited := make(chan error, 1)
+	go func() { exited <- cmd.Wait() }()
+	waitFor := func(n int) string {
+		deadline := time.Now().Add(20 * time.Second)
+		for time.Now().Before(deadline) {
+			mu.Lock()
+			l := len(got)
+			mu.Unlock()
+			if l >= n {
+				return ""
+			}
+			select {
+			case err := <-exited:
+				exited <- err
+				time.Sleep(50 * time.Millisecond)
+				mu.Lock()
+				l = len(got)
+				mu.Unlock()
+				if l >= n {
+					return ""
+				}
+				return fmt.Sprintf("the command ended (%v, stderr %q) after writing %d bytes", err, se.String(), l)
+			case <-time.After(20 * time.Millisecond):
+			}
+		}
+		return "timeout"
+	}
+	defer func() {
+		cmd.Process.Kill()
+		<-exited
+	}()
+	head := fmt.Sprintf("gtree %q, file first %q then %q\n", args, truncate(c.Doc1, 200), truncate(c.Doc2, 200))
+	if msg := waitFor(len(want1)); msg != "" {
+		if msg == "timeout" {
+			return "no-first-rendering"
+		}
+		return head + "while waiting for the first rendering: " + msg
+	}
+	mu.Lock()
+	first := string(got)
+	mu.Unlock()
+	if !strings.HasPrefix(first, want1) {
+		return fmt.Sprintf("%sthe first rendering differs from the library's output: %s", head, firstDiff(first, want1))
+	}
+	// change the file; its modification time moves by whole seconds so that the change cannot go unnoticed
+	// (replaced atomically, so that no half-written state can be rendered)
+	future := time.Now().Add(3 * time.Second)
+	os.WriteFile(doc+".new", []byte(c.Doc2), 0o644)
+	os.Chtimes(doc+".new", future, future)
+	os.Rename(doc+".new", doc)
+	if msg := waitFor(len(want1) + len(want2)); msg != "" {
+		if msg == "timeout" {
+			mu.Lock()
+			l := len(got)
+			mu.Unlock()
+			return fmt.Sprintf("%sthe file changed but no second rendering arrived within 20s (%d bytes so far)", head, l)
+		}
+		return head + "while waiting for the second rendering: " + msg
+	}
+	time.Sleep(30 * time.Millisecond)
+	mu.Lock()
+	all := string(got)
+	mu.Unlock()
+	rest := strings.TrimLeft(all[len(want1):], "\n")
+	if !strings.HasPrefix(rest, want2) {
+		return fmt.Sprintf("%safter the change the output continues with %q; the library renders the new content as %q", head, truncate(rest, 600), truncate(want2, 600))
+	}
+	return ""
+}
+
+func TestC16Watch(t *testing.T) {
+	col := coll("C16", "watch")
+	col.Rule = "rapid: `output --watch --file F` (+ --format): F holds one well-formed document, is replaced by another one (modification time moved by seconds); stdout must start with the library's rendering of the first and continue (after blank lines) with the library's rendering of the second; the process is then killed; non-trivial = always"
+	rapid.Check(t, func(rt *rapid.T) {
+		gen := func(label string) string {
+			f := genForest(forestParams{maxNodes: 8, maxDepth: 4, names: sampled(validElemPool())}).Draw(rt, label)
+			return model.Spell(f, genSpelling(f.HeadingOK()).Draw(rt, label+"sp"))
+		}
+		c := c16Watch{Doc1: gen("f1"), Doc2: gen("f2"), Format: rapid.SampledFrom([]string{"", "", "json", "yaml"}).Draw(rt, "format")}
+		col.eval(true, hash64(fmt.Sprint(c)), "format:"+c.Format)
+		col.sample(func() any { return c })
+		if msg := c16WatchCheck(c); msg != "" {
+			violation(rt, "C16", "c16w", c, msg)
+		}
+	})
 }
